@@ -869,7 +869,16 @@ class Walker:
         self.repo = repo
         self.entry = entry
         self.self_class = self_class or entry.cls
-        self.inline = inline or (lambda fi: False)
+        user_inline = inline or (lambda fi: False)
+
+        def added_since_api(fi: FunctionInfo) -> bool:
+            # a function or method the API table (every function of the pinned library, private ones included) does not
+            # have was added by the change under analysis: no rule is anchored in it, so a call of it is its body
+            if fi.name.startswith("__") or api_signature(fi) is not None:
+                return False
+            return not any(d.split("(")[0].split(".")[-1] in ("property", "setter", "cached_property", "classmethod")
+                           for d in fi.decorators)
+        self.inline = lambda fi: user_inline(fi) or added_since_api(fi)
         self.max_depth = max_depth
         self.events: List[Event] = []
         self.loops: Dict[int, LoopInfo] = {}
